@@ -25,6 +25,12 @@ Definition WFdata (P : cscR) (q : list R) (A : cscR) (b : list R) : Prop :=
 
 Definition SettingsOk (S : @settings R) : Prop := 0 < eq_min S /\ eq_min S <= eq_max S.
 Definition OneInRange (S : @settings R) : Prop := eq_min S <= 1 /\ 1 <= eq_max S.
+(** settings in either order: only positivity is asked; [slo], [shi] are the smaller and the larger
+    of the two bounds *)
+Definition SettingsPos (S : @settings R) : Prop := 0 < eq_min S /\ 0 < eq_max S.
+Definition slo (S : @settings R) : R := Rmin (eq_min S) (eq_max S).
+Definition shi (S : @settings R) : R := Rmax (eq_min S) (eq_max S).
+Definition OneInRangeGen (S : @settings R) : Prop := slo S <= 1 /\ 1 <= shi S.
 
 (** all stored entries of column [j] are zero / all stored entries in row [i] are zero *)
 Definition col_zero (A : cscR) (j : nat) : Prop :=
@@ -82,6 +88,50 @@ Definition stmt_equil_bounds_iter : Prop :=
     (forall j, (j < nc A)%nat -> within (eq_min S) (eq_max S) (nthR (ed (peq r)) j)) /\
     (forall i, (i < nr A)%nat -> within (eq_min S) (eq_max S) (nthR (ee (peq r)) i)) /\
     (within (eq_min S) (eq_max S) (ec (peq r)) \/ ec (peq r) = 1).
+(** 2'. the same for ANY positive min, max, in either order ([slo] = the smaller, [shi] = the
+    larger): nothing in the code orders them *)
+Definition stmt_equil_bounds_gen : Prop :=
+  forall (S : @settings R) (cs : list cone) (P : cscR) q (A : cscR) b,
+    SettingsPos S -> WFdata P q A b ->
+    let r := setup OpsR S cs P q A b in
+    (OneInRangeGen S \/ (eq_enable S = true /\ (1 <= eq_max_iter S)%nat) ->
+       (forall j, (j < nc A)%nat -> within (slo S) (shi S) (nthR (ed (peq r)) j)) /\
+       (forall i, (i < nr A)%nat -> within (slo S) (shi S) (nthR (ee (peq r)) i)) /\
+       (within (slo S) (shi S) (ec (peq r)) \/ (~ OneInRangeGen S /\ ec (peq r) = 1))) /\
+    (forall j, (j < nc A)%nat -> 0 < nthR (ed (peq r)) j) /\
+    (forall i, (i < nr A)%nat -> 0 < nthR (ee (peq r)) i) /\ 0 < ec (peq r).
+(** min > max: the clip [if x < lo {lo} else if x > hi {hi} else {x}] called with lo > hi never
+    returns x, so after at least one pass every column scaling is exactly min or exactly max, and so
+    is c once its guard has fired *)
+Definition stmt_equil_swapped_two_valued : Prop :=
+  forall (S : @settings R) (cs : list cone) (P : cscR) q (A : cscR) b,
+    0 < eq_max S -> eq_max S < eq_min S -> eq_enable S = true -> (1 <= eq_max_iter S)%nat ->
+    WFdata P q A b ->
+    let r := setup OpsR S cs P q A b in
+    (forall j, (j < nc A)%nat -> nthR (ed (peq r)) j = eq_min S \/ nthR (ed (peq r)) j = eq_max S) /\
+    (ec (peq r) = eq_min S \/ ec (peq r) = eq_max S \/ ec (peq r) = 1).
+(** equilibrate_max_iter = 0 (any min/max, any cones): the identity, also through the
+    rectification pass *)
+Definition stmt_max_iter_zero_identity : Prop :=
+  forall (S : @settings R) (cs : list cone) (P : cscR) q (A : cscR) b,
+    eq_max_iter S = 0%nat -> WFdata P q A b ->
+    let r := setup OpsR S cs P q A b in
+    pP r = P /\ pq r = q /\ ed (peq r) = ones OpsR (nc A) /\ ec (peq r) = 1 /\
+    (forall i, (i < nr A)%nat -> nthR (ee (peq r)) i = 1 /\ nthR (pb r) i = nthR b i) /\
+    (forall i j, (i < nr A)%nat -> getR (pA r) i j = getR A i j).
+(** min = max = 1: every factor is 1 whatever the data and the number of passes, so the internal
+    data are the user's data *)
+Definition stmt_unit_bounds_identity : Prop :=
+  forall (S : @settings R) (cs : list cone) (P : cscR) q (A : cscR) b,
+    eq_min S = 1 -> eq_max S = 1 -> WFdata P q A b ->
+    let r := setup OpsR S cs P q A b in
+    (forall j, (j < nc A)%nat -> nthR (ed (peq r)) j = 1) /\
+    (forall i, (i < nr A)%nat -> nthR (ee (peq r)) i = 1) /\ ec (peq r) = 1 /\
+    (forall i j, (i < nc A)%nat -> (j < nc A)%nat -> getR (pP r) i j = getR P i j) /\
+    (forall i j, (i < nr A)%nat -> (j < nc A)%nat -> getR (pA r) i j = getR A i j) /\
+    (forall j, (j < nc A)%nat -> nthR (pq r) j = nthR q j) /\
+    (forall i, (i < nr A)%nat -> nthR (pb r) i = nthR b i).
+
 (** the literal statement (no condition on min/max) is false of the model *)
 Definition stmt_equil_bounds_literal_refuted : Prop :=
   exists (S : @settings R) (cs : list cone) (P : cscR) q (A : cscR) b,
